@@ -188,7 +188,7 @@ def b106 (e : Env) : M (Option PRaw) := do
     | kw :: rest =>
       if ((CallView.kwValue kw).map Node.isStrConst).getD false then
         match CallView.kwName kw with
-        | none => throw .typeError          -- `RE_CANDIDATES.search(None)` for `**"literal"`
+        | none => go rest                   -- `**"literal"`: `kw.arg is None`, skipped
         | some a => if isCandidate a then pure (some pwRaw) else go rest
       else go rest
   go c.keywords
